@@ -213,7 +213,7 @@ pub fn c01(tier: Tier) -> ! {
                                 for &mag in mags.iter() {
                                     let v = [mag * r * a.cos(), mag * r * a.sin()];
                                     for (pi, &phi) in phis.iter().enumerate() {
-                                        if (di + pi + seed as usize) % tier.pick(3, 2) != 0 {
+                                        if (di + pi + seed as usize) % tier.pick(4, 2) != 0 {
                                             continue;
                                         }
                                         for &length in lengths.iter() {
